@@ -840,6 +840,8 @@ class FxInterp(Interp):
             env.setdefault('@assign', {})[name] = self.val(e['rhs'], env)
             if l.get('k') == 'path':
                 env[l['path']] = env['@assign'][name]
+            elif l.get('k') == 'field' and ('.' + name) in env:
+                env['.' + name] = env['@assign'][name]
             return ()
         if k == 'assignop':
             l = peel(e['lhs'])
@@ -853,6 +855,8 @@ class FxInterp(Interp):
             env.setdefault('@assign', {})[name] = new
             if l.get('k') == 'path':
                 env[l['path']] = new
+            elif l.get('k') == 'field' and ('.' + name) in env:
+                env['.' + name] = new
             return ()
         if k == 'break':
             raise Brk()
